@@ -90,14 +90,14 @@ static void rand_hash(uint8_t *out, size_t out_len, uint8_t *in,
  * @param[in] digit			- the small integer.
  */
 static int rand_inc(uint8_t *data, size_t size, int digit) {
-	int carry = digit;
+	/* The digit can be as large as the reseed counter, so a 16-bit sum is not enough. */
+	uint32_t carry = (uint32_t)digit;
 	for (int i = size - 1; i >= 0; i--) {
-		int16_t s;
-		s = (data[i] + carry);
+		uint32_t s = data[i] + carry;
 		data[i] = s & 0xFF;
 		carry = s >> 8;
 	}
-	return carry;
+	return (int)carry;
 }
 
 /**
